@@ -16,7 +16,7 @@ def make_cases(ctx, n, big=False):
                            splitters=rng.random() < 0.85, max_groups=rng.choice([1, 3, 8]),
                            redundant_parens=rng.choice([0.0, 0.3]))
         if big and r < 0.02:
-            opts.max_depth, opts.max_chain, opts.max_groups = 12, 60, 64
+            opts.max_depth, opts.max_chain, opts.max_groups, opts.max_nodes = rng.choice([(12, 3, 4, 150), (2, 60, 4, 150), (1, 1, 64, 20)])
         prog = gen.gen_program(rng, opts)
         text = gen.render(prog, rng, rng.choice(["plain", "tight", "trivia"]))
         envs = [gen.gen_env(prog, rng) for _ in range(3)]
